@@ -604,16 +604,11 @@ func (p *Parser) constAssertDecl() (*ConstAssertDecl, *ParseError) {
 		return nil, &ParseError{Message: "expected 'const_assert'", Token: p.peek()}
 	}
 
-	// const_assert can optionally have parentheses: const_assert(expr) or const_assert expr
-	hasParen := p.match(TokenLeftParen)
+	// const_assert takes an expression; `const_assert(expr);` is just a parenthesised one, and
+	// `const_assert (a + 1) > 2;` is an expression that merely starts with a parenthesis.
 	cond, err := p.expression()
 	if err != nil {
 		return nil, err
-	}
-	if hasParen {
-		if err := p.expectErr(TokenRightParen); err != nil {
-			return nil, err
-		}
 	}
 
 	if err := p.expectSemicolon(); err != nil {
